@@ -111,8 +111,8 @@ func init() {
 		return sx.L(sx.Sym("ok"), sx.L(rows...))
 	})
 	// setop: (sys textA textB (probe...) table) ->
-	//   ("err") | ("ok" (emptyA emptyB) U I U' I' (row...))
-	// U = A union B, I = A intersect B, U' = B union A, I' = B intersect A, each
+	//   ("err") | ("ok" A B U I U' I' (row...))
+	// U = A union B, I = A intersect B, U' = B union A, I' = B intersect A; A, B and the results are
 	// ("err") | ("ok" empty string dump); every operation works on freshly parsed operands.
 	// row = ("verr") | (aE aI bE bI uE uI iE iI u'E u'I i'E i'I); E = Set.MatchVersion,
 	// I = matchVersion(v, true); -1 where the operation failed.
@@ -172,7 +172,7 @@ func init() {
 			}
 			rows = append(rows, sx.L(row...))
 		}
-		out := []sx.V{sx.Sym("ok"), sx.L(sx.Int(bit(sa.Empty())), sx.Int(bit(sb.Empty())))}
+		out := []sx.V{sx.Sym("ok"), setInfo(sa), setInfo(sb)}
 		for k := 0; k < 4; k++ {
 			if ops[k].ok {
 				out = append(out, setInfo(ops[k].s))
